@@ -13,6 +13,7 @@ MAXSTEPS = 400000
 
 import os as _os, time as _time
 EVAL_BUDGET_S = int(_os.environ.get("NX_EVAL_BUDGET", "90"))
+_ACTIVE = [0, 0.0]          # evaluations in progress, their common deadline
 
 
 DISCR_DOM = {}      # ('discr', value term) -> rangeset of the discriminant values of the value's enum type
@@ -20,6 +21,10 @@ DISCR_DOM = {}      # ('discr', value term) -> rangeset of the discriminant valu
 
 class Undecided(Exception):
     pass
+
+
+class OutOfTime(Undecided):
+    """the wall-clock budget ran out: never caught to try another strategy"""
 
 
 # ---------------------------------------------------------------- integer types
@@ -175,6 +180,7 @@ def _unshift(scrut, ty, arms):
 
 
 def mk_cases(scrut, ty, arms):
+    _tick()
     s2, t2 = _unwiden(scrut, ty)
     if t2 != ty:
         dom = (ty_range(t2),)
@@ -226,7 +232,8 @@ def mk_in(scrut, ty, rs):
     if t2 != ty:
         rs = rs_inter(rs, (ty_range(t2),))
         scrut, ty = s2, t2
-    if isinstance(scrut, tuple) and scrut and scrut[0] == "bin" and len(scrut) == 5 and scrut[1] == "Add":
+    if (isinstance(scrut, tuple) and scrut and scrut[0] == "bin" and len(scrut) == 5 and scrut[1] == "Add" and scrut[4] == ty and ty in INT_TYS
+            and ty_range(ty)[0] == 0 and _unshift(scrut, ty, ((rs, TRUE),))[0] != scrut):
         c = mk_cases(scrut, ty, ((rs, TRUE), (rs_compl(rs, ty), FALSE)))
         if not (c[0] == "in" and c[1] == scrut):
             return c
@@ -287,8 +294,32 @@ def mk_or(a, b):
     return ite(a, TRUE, b)
 
 
+_TICK = [0]
+
+
+class budget:
+    """`with sym.budget():` — work on terms outside an evaluator (merging entry environments, splitting cases) counts
+    against the same wall-clock budget"""
+    def __enter__(self):
+        if _ACTIVE[0] == 0:
+            _ACTIVE[1] = _time.time() + EVAL_BUDGET_S
+        _ACTIVE[0] += 1
+
+    def __exit__(self, *a):
+        _ACTIVE[0] -= 1
+        return False
+
+
+def _tick():
+    """the wall-clock budget also covers work on case trees between evaluation steps"""
+    _TICK[0] += 1
+    if (_TICK[0] & 4095) == 0 and _ACTIVE[0] > 0 and _time.time() > _ACTIVE[1]:
+        raise OutOfTime("time budget (%ds) exceeded: the value grows too large to enumerate" % EVAL_BUDGET_S)
+
+
 def map_leaves(t, f):
     """apply f to the leaves of a cases/ite tree"""
+    _tick()
     if isinstance(t, tuple) and t and t[0] == "cases":
         return mk_cases(t[1], t[2], tuple((rs, map_leaves(x, f)) for rs, x in t[3]))
     if isinstance(t, tuple) and t and t[0] == "ite":
@@ -525,6 +556,7 @@ class Evaluator:
         self.opaque_local = set(opaque_local)   # local fns to keep as uninterpreted calls
         self.steps = 0
         self._nest = 0
+        self.cut_revisit = frozenset()
         self.deadline = float("inf")
         self.asserts = []       # (fn path, assert kind, cond term, path-condition) encountered
         self.fresh = 0
@@ -553,15 +585,34 @@ class Evaluator:
         env = {0: ("uninit",)}
         for i, a in enumerate(args):
             env[i + 1] = a
-        outer = self._nest == 0
-        if outer:
-            self.steps = 0
-            self.deadline = _time.time() + EVAL_BUDGET_S
-        self._nest += 1
+        self._enter()
         try:
             return self._run(fn, 0, env, {}, depth)
         finally:
-            self._nest -= 1
+            self._leave()
+
+    def _enter(self):
+        # one wall-clock budget per outermost evaluation, shared by every evaluator working for it (sub-evaluations of
+        # loop bodies and error arms included)
+        if self._nest == 0:
+            self.steps = 0
+        if _ACTIVE[0] == 0:
+            _ACTIVE[1] = _time.time() + EVAL_BUDGET_S
+        self.deadline = _ACTIVE[1]
+        _ACTIVE[0] += 1
+        self._nest += 1
+
+    def _leave(self):
+        self._nest -= 1
+        _ACTIVE[0] -= 1
+
+    def run(self, fn, bb, env, visits, depth, until=None):
+        """evaluate from a block, under the wall-clock budget"""
+        self._enter()
+        try:
+            return self._run(fn, bb, env, visits, depth, until)
+        finally:
+            self._leave()
 
     def eval_loop_body(self, fn, head, body, tracked, env0=None):
         """one iteration of a natural loop, symbolically: evaluates from the loop head with every local bound to
@@ -570,14 +621,11 @@ class Evaluator:
         if env0:
             env.update(env0)
         self.stop = (fn.path, head, set(body), tuple(tracked))
-        if self._nest == 0:
-            self.steps = 0
-            self.deadline = _time.time() + EVAL_BUDGET_S
-        self._nest += 1
+        self._enter()
         try:
             return self._run(fn, head, env, {}, 0)
         finally:
-            self._nest -= 1
+            self._leave()
             self.stop = None
 
     def eval_self_fn(self, path):
@@ -716,6 +764,8 @@ class Evaluator:
                     if cf.path not in memo:
                         try:
                             memo[cf.path] = self.eval_fn(cf, [], 1)
+                        except OutOfTime:
+                            raise
                         except Undecided:
                             memo[cf.path] = None
                     if memo[cf.path] is not None:
@@ -858,7 +908,7 @@ class Evaluator:
             if self.steps > MAXSTEPS:
                 raise Undecided("step budget exceeded in " + fn.path)
             if (self.steps & 63) == 0 and _time.time() > getattr(self, "deadline", float("inf")):
-                raise Undecided("time budget (%ds) exceeded in %s: the value grows too large to enumerate" % (EVAL_BUDGET_S, fn.path))
+                raise OutOfTime("time budget (%ds) exceeded in %s: the value grows too large to enumerate" % (EVAL_BUDGET_S, fn.path))
             mkey = None
             if len(fn.pred_map()[bb]) > 1 and self.stop is None:
                 # blocks reachable along several paths: reuse the result for an identical live environment
@@ -890,7 +940,7 @@ class Evaluator:
                 if self.steps > MAXSTEPS:
                     raise Undecided("step budget exceeded in " + fn.path)
                 if (self.steps & 63) == 0 and _time.time() > getattr(self, "deadline", float("inf")):
-                    raise Undecided("time budget (%ds) exceeded in %s: the value grows too large to enumerate" % (EVAL_BUDGET_S, fn.path))
+                    raise OutOfTime("time budget (%ds) exceeded in %s: the value grows too large to enumerate" % (EVAL_BUDGET_S, fn.path))
             first = False
             if self.stop is not None and fn.path == self.stop[0]:
                 if bb == self.stop[1] and visits.get(bb, 0) >= 1:
@@ -905,6 +955,8 @@ class Evaluator:
                     try:
                         if bb != normal_exit(fn, saved[1], saved[2]):
                             val = self._run(fn, bb, dict(env), {saved[1]: 1}, depth)
+                    except OutOfTime:
+                        raise
                     except Undecided:
                         val = None
                     finally:
@@ -920,6 +972,8 @@ class Evaluator:
                 lp = fn.loops()
                 if bb in lp and bb not in self.no_skip and not is_await_loop(fn, lp[bb]) and not (self.stop is not None and fn.path == self.stop[0] and bb == self.stop[1]):
                     return self._skip_loop(fn, bb, lp[bb], env, visits, depth, until)
+            if visits.get(bb, 0) >= 1 and bb in self.cut_revisit:
+                return ("noentry",)
             visits = dict(visits)
             visits[bb] = visits.get(bb, 0) + 1
             if visits[bb] > 70:
@@ -981,6 +1035,8 @@ class Evaluator:
         (it is then unrolled / summarised as before)."""
         try:
             return self._comprehend2(fn, head, body, env, visits, depth, until)
+        except OutOfTime:
+            raise
         except Undecided:
             return None
 
@@ -1151,6 +1207,8 @@ class Evaluator:
                 if allerr:
                     for e in exits[1:]:
                         err_arm[e] = err(("loop_error", fn.path, head, e))
+            except OutOfTime:
+                raise
             except Undecided as ex:
                 if _os.environ.get("NX_DEBUG"):
                     print("DEBUG _skip_loop error-arm analysis undecided:", fn.path, head, ex)
@@ -1974,7 +2032,26 @@ def _m_iop(name):
     return f
 
 
+def _m_str_ends_with(ev, a, t, d):
+    # s.ends_with(c) for a single char c: the last char of s exists and is c (core docs: a char pattern matches that char)
+    tys = [x["d"]["s"] for x in t.get("targs", [])]
+    if len(a) == 2 and tys == ["char"]:
+        last = ("call", "core::iter::traits::iterator::Iterator::last", (("call", "core::str::<impl str>::chars", (a[0],)),))
+        return opt_match(last, lambda c: binop("Eq", c, a[1], "char"), lambda: FALSE)
+    return None
+
+
+def _m_str_starts_with(ev, a, t, d):
+    tys = [x["d"]["s"] for x in t.get("targs", [])]
+    if len(a) == 2 and tys == ["char"]:
+        first = ("call", "core::iter::traits::iterator::Iterator::nth", (("call", "core::str::<impl str>::chars", (a[0],)), C(0, "usize")))
+        return opt_match(first, lambda c: binop("Eq", c, a[1], "char"), lambda: FALSE)
+    return None
+
+
 DEFAULT_MODELS = {
+    "core::str::<impl str>::ends_with": _m_str_ends_with,
+    "core::str::<impl str>::starts_with": _m_str_starts_with,
     "core::option::Option::<T>::map": _m_opt_map,
     "core::option::Option::<T>::and_then": _m_opt_and_then,
     "core::option::Option::<T>::ok_or": _m_opt_ok_or,
@@ -2148,14 +2225,30 @@ def vfld(base, variant, name):
 def rebuild(t, sub, known=None):
     """re-normalise t bottom-up after substituting sub (dict term->term); `known` maps a scrutinee term to the
     rangeset it is known to lie in (case trees over it are cut down to the arms that remain possible)"""
-    if t in sub:
-        return sub[t]
+    memo = {"heads": {k[0] for k in sub if isinstance(k, tuple) and k}, "plain": any(not (isinstance(k, tuple) and k) for k in sub)}
+    return _rebuild(t, sub, known, memo)
+
+
+def _rebuild(t, sub, known, memo):
+    # values share subterms (the same object reached along many paths): each distinct object is rebuilt once
     if not isinstance(t, tuple) or not t:
-        return t
+        return sub[t] if memo["plain"] and t in sub else t
+    hit = memo.get(id(t))
+    if hit is not None and hit[0] is t:
+        return hit[1]
+    out = _rebuild1(t, sub, known, memo)
+    memo[id(t)] = (t, out)
+    return out
+
+
+def _rebuild1(t, sub, known, memo):
     k = t[0]
+    if k in memo["heads"] and t in sub:
+        return sub[t]
     if k in ("c", "p", "fnptr", "const", "unreachable", "panic", "uninit"):
         return t
-    r = lambda x: rebuild(x, sub, known)
+    _tick()
+    r = lambda x: _rebuild(x, sub, known, memo)
     if k == "vfld":
         return vfld(r(t[1]), t[2], t[3])
     if k == "cases" and known and t[1] in known:
